@@ -500,6 +500,7 @@ func checkC18(c *Check) {
 
 	// --- rule 5: side door
 	c18SideDoor(c, ci)
+	c18DependencyPaths(c)
 }
 
 func c18JoinShape(c *Check, ci *chrootInfo) {
@@ -809,6 +810,110 @@ func c18Loader(c *Check, ci *chrootInfo) {
 			}
 		})
 	}
+	// The function that builds the confined filesystem holds the raw one. With a
+	// root given, the raw filesystem must not be used for anything but the
+	// confining constructor: every other call that receives it (the search for a
+	// root marker stats every ancestor directory up to /) has to lie on the branch
+	// where the root parameter is empty.
+	nRaw := 0
+	for _, f := range p.RepoFuncs() {
+		if fnPkgPath(f) != lp.Pkg.Path() || f.Parent() != nil {
+			continue
+		}
+		var ctorCall *ssa.Call
+		eachInstr(f, func(_ *ssa.BasicBlock, i ssa.Instruction) {
+			if cl, ok := i.(*ssa.Call); ok && isCtorCall(cl) && len(cl.Call.Args) >= 2 {
+				ctorCall = cl
+			}
+		})
+		if ctorCall == nil {
+			continue
+		}
+		raw := stripValue(ctorCall.Call.Args[0])
+		if _, isParam := raw.(*ssa.Parameter); !isParam {
+			continue
+		}
+		rootArg := stripValue(ctorCall.Call.Args[1])
+		// the string parameter that becomes the root
+		var rootParam *ssa.Parameter
+		for _, prm := range f.Params {
+			if !isStringType(prm.Type()) {
+				continue
+			}
+			if rootArg == ssa.Value(prm) {
+				rootParam = prm
+			}
+			if own, fld, _, ok := loadedField(rootArg); ok {
+				eachInstr(f, func(_ *ssa.BasicBlock, i ssa.Instruction) {
+					if st, ok := i.(*ssa.Store); ok && st.Val == ssa.Value(prm) {
+						if o2, f2, _, ok := fieldOfAddr(st.Addr); ok && o2 == own && f2 == fld {
+							rootParam = prm
+						}
+					}
+				})
+			}
+		}
+		// blocks that run only when the root parameter is empty
+		emptyOnly := map[*ssa.BasicBlock]bool{}
+		if rootParam != nil && rootParam.Referrers() != nil {
+			for _, r := range *rootParam.Referrers() {
+				bin, ok := r.(*ssa.BinOp)
+				if !ok || (bin.Op != token.EQL && bin.Op != token.NEQ) {
+					continue
+				}
+				other := bin.Y
+				if other == ssa.Value(rootParam) {
+					other = bin.X
+				}
+				if sv, ok := constString(other); !ok || sv != "" {
+					continue
+				}
+				for _, br := range branchesOn(bin) {
+					empty, nonEmpty := br.TrueSucc, br.FalseSucc
+					if bin.Op == token.NEQ {
+						empty, nonEmpty = nonEmpty, empty
+					}
+					if len(empty.Preds) != 1 {
+						continue
+					}
+					for _, b := range f.Blocks {
+						if empty.Dominates(b) && !nonEmpty.Dominates(b) {
+							emptyOnly[b] = true
+						}
+					}
+				}
+			}
+		}
+		eachCall(f, func(cl ssa.CallInstruction) {
+			if cl == ssa.CallInstruction(ctorCall) {
+				return
+			}
+			uses := false
+			for _, a := range cl.Common().Args {
+				if stripValue(a) == raw {
+					uses = true
+				}
+			}
+			if !uses {
+				return
+			}
+			nRaw++
+			callee := "a dynamic callee"
+			if o := calleeObj(cl); o != nil {
+				callee = shortObj(o)
+			}
+			key := fmt.Sprintf("%s|unconfined filesystem handed to %s only when no root is given", fnName(f), callee)
+			switch {
+			case rootParam == nil:
+				c.Undecidedf("RAW-FS-USE", key, p.pos(cl.Pos()), "cannot identify the string parameter that becomes the root of the confined filesystem")
+			case emptyOnly[cl.Block()]:
+				c.Okf("RAW-FS-USE", key, p.pos(cl.Pos()), "the call lies on the branch where parameter %s is empty", rootParam.Name())
+			default:
+				c.Flagf("RAW-FS-USE", key, p.pos(cl.Pos()), "%s receives the unconfined filesystem on a path where the root parameter %s is set: files outside the given root are stat-ed or read", callee, rootParam.Name())
+			}
+		})
+	}
+	c.Counts["raw_fs_uses_in_loader"] = nRaw
 	c.Counts["loader_parse_fs_arguments"] = n
 	if n == 0 {
 		c.Undecidedf("LOADER-WRAPS", "pkg/loader", "-", "no call from pkg/loader into pkg/parse with a filesystem argument found: unresolved anchor")
@@ -880,6 +985,73 @@ func c18SideDoor(c *Check, ci *chrootInfo) {
 	}
 	c.Counts["sidedoor_sites"] = sites
 	c.Okf("SIDE-DOOR", "scan", "-", "scanned %d repository functions reachable from %d compiler entry points in the whole-program VTA graph (%d functions)", nRepo, len(entries), len(r))
+}
+
+// c18DependencyPaths: a path string that repository code builds and hands to a
+// file-touching API of a dependency (which goes to the OS, not through the
+// confined afero.Fs) must be computed from the confined filesystem — in
+// practice from its root directory. A path built from constants alone is
+// relative to the working directory, i.e. outside the project root.
+func c18DependencyPaths(c *Check) {
+	p := c.P
+	n := 0
+	for _, f := range p.RepoFuncs() {
+		pp := fnPkgPath(f)
+		if pp != repoMod+"/pkg/parse" && pp != repoMod+"/pkg/loader" {
+			continue
+		}
+		var fsParam *ssa.Parameter
+		for _, prm := range f.Params {
+			if typeIs(prm.Type(), aferoPath, "Fs") {
+				fsParam = prm
+			}
+		}
+		if fsParam == nil {
+			continue
+		}
+		eachCall(f, func(cl ssa.CallInstruction) {
+			o := calleeObj(cl)
+			if o == nil || o.Pkg() == nil {
+				return
+			}
+			path := o.Pkg().Path()
+			if isRepoPkg(o.Pkg()) || !strings.Contains(strings.SplitN(path, "/", 2)[0], ".") || strings.HasPrefix(path, "github.com/spf13/afero") ||
+				strings.HasPrefix(path, "github.com/sirupsen/logrus") || strings.HasPrefix(path, "github.com/pkg/errors") {
+				return // repository code, the standard library (SIDE-DOOR), the confined fs, logging
+			}
+			for ai, a := range cl.Common().Args {
+				if !isStringType(a.Type()) {
+					continue
+				}
+				v := stripValue(a)
+				switch v.(type) {
+				case *ssa.Const, *ssa.Parameter:
+					continue
+				}
+				if g, ok := loadsGlobal(v); ok && g.Pkg != nil && !isRepoPkg(g.Pkg.Pkg) {
+					continue // a setting of the dependency itself (its cache directory)
+				}
+				pathLike := derives(v, func(x ssa.Value) bool {
+					cc, ok := x.(*ssa.Call)
+					return ok && (callIs(cc, "path/filepath", "Join") || callIs(cc, "path", "Join") || callIs(cc, "path/filepath", "Abs") || callIs(cc, "path/filepath", "Clean"))
+				}, &deriveOpts{throughBinOp: true})
+				if !pathLike {
+					continue
+				}
+				n++
+				fromFs := derives(v, func(x ssa.Value) bool { return x == ssa.Value(fsParam) },
+					&deriveOpts{throughBinOp: true, throughCalls: func(*ssa.Call) bool { return true }})
+				key := fmt.Sprintf("%s|path handed to %s arg%d is computed from the confined filesystem", fnName(f), shortObj(o), ai)
+				c.Cond(fromFs, "DEPENDENCY-PATH", key, p.pos(cl.Pos()),
+					"the path is computed from the filesystem parameter (its root directory)",
+					fmt.Sprintf("%s works on the OS filesystem, and the path it is given is built without reference to the confined filesystem %s: it is resolved against the working directory, outside the project root", shortObj(o), fsParam.Name()))
+			}
+		})
+	}
+	c.Counts["dependency_path_arguments"] = n
+	if n == 0 {
+		c.Undecidedf("DEPENDENCY-PATH", "sites", "-", "no path handed to a dependency found in pkg/parse or pkg/loader (expected the pinner's modules.yaml)")
+	}
 }
 
 func recvType(o *types.Func) types.Type {
